@@ -404,7 +404,7 @@ func c14SplitScenario(server string, nw, nr int) explore.Scenario {
 	}
 }
 
-func c14Scenario(server string, nw, nr int, twoHandles bool, alloc bool, mid bool, ro bool, end string) explore.Scenario {
+func c14Scenario(server string, nw, nr int, twoHandles bool, alloc bool, mid bool, ro bool, end string, sameID bool) explore.Scenario {
 	return func() (func(), func(*vsched.Exec) explore.Verdict) {
 		const init = "ABCDEFGHIJKLMNOP"
 		spec := &srvSpec{server: server, alloc: alloc, split: true, hangup: -1, files: map[string]string{"/f": init, "/g": init}}
@@ -445,7 +445,11 @@ func c14Scenario(server string, nw, nr int, twoHandles bool, alloc bool, mid boo
 				data := []byte{byte('a' + off + hi), byte('b' + off + hi)}
 				spec.burst = append(spec.burst, mustPkt(&sshFxpWritePacket{ID: id, Handle: h, Offset: uint64(off), Length: 2, Data: data}))
 				copy(want[names[hi]][off:], data)
-				id++
+				if !sameID {
+					if !sameID {
+						id++
+					}
+				}
 			}
 		}
 		for i := 0; i < nr; i++ {
@@ -453,17 +457,25 @@ func c14Scenario(server string, nw, nr int, twoHandles bool, alloc bool, mid boo
 				off := 8 + 2*i
 				spec.burst = append(spec.burst, mustPkt(&sshFxpReadPacket{ID: id, Handle: h, Offset: uint64(off), Len: 2}))
 				reads = append(reads, rd{id, init[off : off+2]})
-				id++
+				if !sameID {
+					if !sameID {
+						id++
+					}
+				}
 			}
 		}
 		if mid {
 			// a sequential (non read/write) request between the transfers and the close
 			spec.burst = append(spec.burst, mustPkt(&sshFxpFstatPacket{ID: id, Handle: handles[0]}))
-			id++
+			if !sameID {
+				id++
+			}
 		}
 		for _, h := range handles {
 			spec.burst = append(spec.burst, mustPkt(&sshFxpClosePacket{ID: id, Handle: h}))
-			id++
+			if !sameID {
+				id++
+			}
 		}
 		var r *srvRun
 		body := func() {
@@ -574,7 +586,7 @@ func atoiDef(s string, d int) int {
 
 func init() {
 	reg.Part("C14/sched", func(c *reg.Ctx) *reg.Result {
-		sc := c14Scenario(c.Arg("server", "rs"), c.ArgInt("nw", 2), c.ArgInt("nr", 1), c.Arg("two", "0") == "1", c.Arg("alloc", "0") == "1", c.Arg("mid", "0") == "1", c.Arg("ro", "0") == "1", c.Arg("end", ""))
+		sc := c14Scenario(c.Arg("server", "rs"), c.ArgInt("nw", 2), c.ArgInt("nr", 1), c.Arg("two", "0") == "1", c.Arg("alloc", "0") == "1", c.Arg("mid", "0") == "1", c.Arg("ro", "0") == "1", c.Arg("end", ""), c.Arg("sameid", "0") == "1")
 		if c.Arg("splitmode", "0") == "1" {
 			sc = c14SplitScenario(c.Arg("server", "rs"), c.ArgInt("nw", 2), c.ArgInt("nr", 2))
 		}
@@ -617,6 +629,16 @@ func c14Jobs(tier string) []reg.Job {
 					j("rs W=8 2w+1r db3", "instr", "rs", 2, 1, false, 3, 900),
 					j("rs W=2 2w+2r db4", "instr-w2", "rs", 2, 2, false, 4, 900),
 					j("rs W=3 two handles db3", "instr-w3", "rs", 1, 1, true, 3, 600),
+					func() reg.Job {
+						x := j("rs W=2 3w, close, every request with the same id db4", "instr-w2", "rs", 3, 0, false, 4, 600)
+						x.Args["sameid"] = "1"
+						return x
+					}(),
+					func() reg.Job {
+						x := j("os W=2 3w, close, every request with the same id db3", "instr-w2", "os", 3, 0, false, 3, 600)
+						x.Args["sameid"] = "1"
+						return x
+					}(),
 					j("os W=8 2w+1r db3", "instr", "os", 2, 1, false, 3, 900),
 					j("os W=2 2w+2r db3", "instr-w2", "os", 2, 2, false, 3, 600),
 					func() reg.Job {
@@ -651,6 +673,17 @@ func c14Jobs(tier string) []reg.Job {
 				j("rs W=2 2w+1r db3", "instr-w2", "rs", 2, 1, false, 3, 100),
 				j("os W=2 2w+1r db2", "instr-w2", "os", 2, 1, false, 2, 100),
 				j("rs W=2 two handles interleaved 2w each db2", "instr-w2", "rs", 2, 0, true, 2, 100),
+				func() reg.Job {
+					// a peer that does not number its requests: the server must not rely on request ids to tell requests apart
+					x := j("rs W=2 3w, close, every request with the same id db3", "instr-w2", "rs", 3, 0, false, 3, 100)
+					x.Args["sameid"] = "1"
+					return x
+				}(),
+				func() reg.Job {
+					x := j("os W=2 3w, close, every request with the same id db2", "instr-w2", "os", 3, 0, false, 2, 100)
+					x.Args["sameid"] = "1"
+					return x
+				}(),
 				func() reg.Job {
 					x := j("rs W=2 write-only + read-only handles 2w/2r db2", "instr-w2", "rs", 2, 2, false, 2, 100)
 					x.Args["splitmode"] = "1"
